@@ -230,7 +230,9 @@ class ErrorTree(object):
         for error in errors:
             container = self
             for element in error.path:
-                container = container[element]
+                # Not `container[element]`: that looks the element up in the
+                # instance recorded so far, which need not contain it
+                container = container._contents[element]
             container.errors[error.validator] = error
 
             container._instance = error.instance
